@@ -144,3 +144,37 @@ def value_guarded_stores(fn, record_names=None):
                 break
             p = pp
     return out
+
+
+def zero_valid_truth_tests(fn):
+    """A parameter whose accepted range includes 0 (`lo <= p <= hi` with lo <= 0 in a validation of the function) and whose PRESENCE is
+    tested by truthiness (`not p`, `p and ...`, `if p:`): the valid value 0 is treated as "not given". Returns [(param, truth-test node,
+    range node)]. One place of the function says 0 is a value, another says it is nothing - one of them is wrong."""
+    params = set(a.arg for a in fn.args.posonlyargs + fn.args.args + fn.args.kwonlyargs)
+    parents = {}
+    for n in ast.walk(fn):
+        for c in ast.iter_child_nodes(n):
+            parents[c] = n
+    ranges = {}
+    for n in ast.walk(fn):
+        if isinstance(n, ast.Compare) and len(n.ops) == 2 and all(isinstance(o, (ast.LtE, ast.Lt)) for o in n.ops):
+            lo, mid, hi = n.left, n.comparators[0], n.comparators[1]
+            if isinstance(mid, ast.Name) and mid.id in params and isinstance(lo, ast.Constant) and isinstance(lo.value, int) and not isinstance(lo.value, bool):
+                lowest = lo.value if isinstance(n.ops[0], ast.LtE) else lo.value + 1
+                if lowest <= 0 and isinstance(hi, ast.Constant) and isinstance(hi.value, int) and hi.value >= 0:
+                    ranges[mid.id] = n
+    out = []
+    for n in ast.walk(fn):
+        if not (isinstance(n, ast.Name) and n.id in ranges and isinstance(n.ctx, ast.Load)):
+            continue
+        p = parents.get(n)
+        truth = False
+        if isinstance(p, ast.UnaryOp) and isinstance(p.op, ast.Not):
+            truth = True
+        elif isinstance(p, ast.BoolOp):
+            truth = True
+        elif isinstance(p, (ast.If, ast.While, ast.IfExp)) and p.test is n:
+            truth = True
+        if truth:
+            out.append((n.id, p, ranges[n.id]))
+    return out
